@@ -69,6 +69,11 @@ def gen_case(rng, i):
         if big:
             case["cwnd0"] = rng.choice([60000, 120000, 65535])
             case["segments"] = None
+    if not cubic and i % 11 == 4:
+        # a long stretch of congestion avoidance with a full buffer: cwnd grows by fractions of a byte-count and the
+        # window edge last_ack + cwnd passes many segment boundaries (a rounded edge admits a segment early)
+        case["cwnd0"], case["ssthresh0"], case["segments"] = rng.choice([1024, 2048, 5000]), rng.choice([512, 1024]), None
+        case["events"] = [["ack", rng.choice([1, 1, 1, 2]), rng.choice([0.01, 0.05, 0.1])] for _ in range(rng.randint(300, 900))]
     if i % 5 == 3:
         # an application-paced flow: data becomes available in chunks, the sender is application limited
         case["app"] = {"gap": rng.choice([0.5, 1.0, 3.0]), "chunk": rng.choice([512, 1024, 2048])}
